@@ -16,6 +16,12 @@ from vlib import core
 FILES = {"pipeline": "pipeline.json", "compiler": "compiler_passes.json", "veneers": "veneers.json"}
 ANNOTATIONS = {"description", "title", "$comment", "$schema", "$id", "$defs", "examples", "default", "deprecated"}
 MODELLED = {"$ref", "type", "properties", "additionalProperties", "items"}
+# keywords that constrain WHICH of the declared keys appear together, not which keys exist: the key grammar is unaffected,
+# their effect is judged on documents by the reference validator (class "structure")
+COMBINATION = {"minProperties", "maxProperties", "required", "minItems", "maxItems", "dependentRequired"}
+# value-level keywords: no effect on keys
+VALUE = {"enum", "const", "pattern", "format", "minimum", "maximum", "exclusiveMinimum", "exclusiveMaximum", "minLength", "maxLength",
+         "multipleOf", "uniqueItems", "contentEncoding", "contentMediaType", "readOnly", "writeOnly"}
 SCALARS = {"string": "string", "boolean": "bool", "integer": "int", "number": "float"}
 
 
@@ -31,10 +37,26 @@ class _Extractor:
         self.schema = schema
         self.name = name
         self.nodes = {}
+        self.combination = set()   # (keyword, where) seen: noted
+        self.unmodelled = set()    # keywords that may change the key language in ways the grammar does not express
+
+    def keywords(self, sch, where):
+        """keywords beyond the modelled ones are never a reason to give up: the documents are judged by the reference
+        validator against the real loader anyway; here they only decide how far KPublished itself can be trusted"""
+        extra = set(sch) - ANNOTATIONS - MODELLED
+        for k in extra & COMBINATION:
+            self.combination.add("%s at %s" % (k, where))
+        for k in extra - COMBINATION - VALUE:
+            self.unmodelled.add("%s at %s" % (k, where))
 
     def bad(self, where, what):
-        raise core.Inconclusive("schemas/%s: %s at %s is not modelled by ConfigLang (extend checks/configlang_common.py)"
-                                % (self.name, what, where))
+        raise core.Inconclusive("schemas/%s: %s at %s: the published schema itself is broken" % (self.name, what, where))
+
+    def approx(self, where, what):
+        """a construct the key grammar cannot express: the node is taken as free-form, KPublished is marked partial (its own
+        verdicts are then not trusted; loader-vs-validator disagreements on documents still are)"""
+        self.unmodelled.add("%s at %s" % (what, where))
+        return _node("free", t="any")
 
     def visit(self, sch, where):
         """returns the node id for the sub-schema `sch` found at JSON pointer-ish `where`"""
@@ -42,16 +64,18 @@ class _Extractor:
             self.nodes.setdefault("any", _node("free", t="any"))
             return "any"
         if sch is False or not isinstance(sch, dict):
-            self.bad(where, "schema %r" % (sch,))
-        extra = set(sch) - ANNOTATIONS - MODELLED
-        if extra:
-            self.bad(where, "keyword(s) %s" % sorted(extra))
+            self.unmodelled.add("schema %r at %s" % (sch, where))
+            self.nodes.setdefault("any", _node("free", t="any"))
+            return "any"
+        self.keywords(sch, where)
         if "$ref" in sch:
-            if set(sch) - ANNOTATIONS - {"$ref"}:
-                self.bad(where, "$ref with sibling keywords")
+            if set(sch) - ANNOTATIONS - {"$ref"} - COMBINATION - VALUE:
+                self.unmodelled.add("$ref with sibling keywords at %s" % where)
             ref = sch["$ref"]
             if not ref.startswith("#/$defs/"):
-                self.bad(where, "$ref %s" % ref)
+                self.unmodelled.add("$ref %s at %s" % (ref, where))
+                self.nodes.setdefault("any", _node("free", t="any"))
+                return "any"
             name = ref[len("#/$defs/"):]
             if name not in self.schema.get("$defs", {}):
                 self.bad(where, "dangling $ref %s" % ref)
@@ -74,20 +98,24 @@ class _Extractor:
 
     def build(self, sch, where, defname):
         if not isinstance(sch, dict):
-            self.bad(where, "schema %r" % (sch,))
-        extra = set(sch) - ANNOTATIONS - MODELLED
-        if extra:
-            self.bad(where, "keyword(s) %s" % sorted(extra))
+            return self.approx(where, "schema %r" % (sch,))
+        self.keywords(sch, where)
         if "$ref" in sch:  # a definition that is only an alias
             target = self.visit(sch, where)
-            return dict(self.nodes[target]) if self.nodes[target] else self.bad(where, "recursive alias")
+            return dict(self.nodes[target]) if self.nodes[target] else self.approx(where, "recursive alias")
         t = sch.get("type")
         if t is None:
-            if "properties" in sch or "items" in sch or "additionalProperties" in sch:
-                self.bad(where, "untyped schema with structural keywords")
-            return _node("free", t="any")
+            if "properties" in sch or "additionalProperties" in sch:
+                t = "object"   # untyped but shaped like an object: also admits non-objects, which is a value-level matter
+                self.unmodelled.add("untyped object schema at %s" % where)
+            elif "items" in sch:
+                t = "array"
+                self.unmodelled.add("untyped array schema at %s" % where)
+            else:
+                return _node("free", t="any")
         if isinstance(t, list):
-            self.bad(where, "type list %s" % t)
+            self.unmodelled.add("type list at %s" % where)
+            t = [x for x in t if x != "null"][0] if [x for x in t if x != "null"] else "null"
         if t in SCALARS:
             return _node("scalar", t=SCALARS[t])
         if t == "array":
@@ -109,12 +137,13 @@ class _Extractor:
                     return _node("free", t="dict:" + vn["t"])
                 if vn["kind"] == "free":
                     return _node("free", t="dict:any")
-                self.bad(where, "map with structured values")
+                return self.approx(where, "map with structured values")
             if ap is not False and ap is not True:
-                self.bad(where, "properties together with a typed additionalProperties")
+                self.unmodelled.add("properties together with a typed additionalProperties at %s" % where)
+                ap = True
             keys = [{"k": k, "c": self.visit(v, where + "/properties/" + k), "f": ""} for k, v in props.items()]
             return _node("map", open=(ap is True), keys=keys)
-        self.bad(where, "type %r" % t)
+        return _node("scalar", t="string") if t == "null" else self.approx(where, "type %r" % t)
 
 
 def extract_published(repo):
@@ -126,7 +155,7 @@ def extract_published(repo):
         sch = json.load(open(p))
         ex = _Extractor(sch, fn)
         root = ex.visit({k: v for k, v in sch.items() if k in ("$ref", "type", "properties", "additionalProperties", "items")}, "#")
-        out[f] = {"root": root, "nodes": ex.nodes}
+        out[f] = {"root": root, "nodes": ex.nodes, "combination": sorted(ex.combination), "unmodelled": sorted(ex.unmodelled)}
     return out
 
 
